@@ -4,7 +4,7 @@
 //!   lcprop s <4 ascii chars>    -> <canonical script tag (decimal)> <dir guessed for that script on an empty buffer>
 //!       (both through UnicodeBuffer::new/add/set_script/guess_segment_properties/script/direction)
 //!
-//!   lc <fontpath[@index]|-> [T=<hexcp>:<tag>,…] [D=<tag>:<dir>,…] ; <op> ; <op> …
+//!   lc <fontpath[@index]|#<registered font id>|-> [T=<hexcp>:<tag>,…] [D=<tag>:<dir>,…] ; <op> ; <op> …
 //!       one public-API history on one buffer; reply `ok <state> | <state> | …` (state after every op,
 //!       read through the rb_verif hook verif::buffer::life_*).  T/D are ignored here (they are the
 //!       Unicode-script data the Lean model takes as parameters).
@@ -17,6 +17,12 @@
 //!          k=U|G e=<empty path> L F M O h s p ok i n o sc se il pl D S G pre post sf nf inv I=<gid:cluster,…|#hash>
 //!       state (glyph buffer after shaping a non-empty buffer; what the shaping body computes is left out):
 //!          k=G e=0 L F M O se D S G pre post nf inv out=<n>#<hash of gid,cluster,flags,advances,offsets>
+//!
+//!   lcclear L=.. F=.. M=.. O=.. h=.. s=.. p=.. ok=.. i=.. n=.. o=.. sc=.. se=.. il=.. pl=.. D=.. S=.. G=.. pre=.. post=.. sf=.. nf=.. inv=.. I=..
+//!       (the fields of a unicode-buffer state line, in any order)  a bare hb_buffer_t with EVERY field set as given
+//!       (hook verif::buffer::clear_probe: il / pl = lengths of the info / pos Vecs, zero-padded beyond the n records
+//!       of I), then `hb_buffer_t::clear()`; reply = the state line of the cleared buffer (every field read back)
+//!       followed by ` cx=<5 raw pre-context slots>/<5 raw post-context slots>` (hex)
 //!
 //!   lcrand <fontpath[@index]> <n> -> <initial random_state> <first n values of random_number()>
 //!
@@ -42,7 +48,7 @@ use rustybuzz::{
 };
 use std::str::FromStr;
 
-pub const CMDS: &[&str] = &["lc", "lcprop", "lcrand", "shapemt", "mfont", "c01"];
+pub const CMDS: &[&str] = &["lc", "lcclear", "lcprop", "lcrand", "shapemt", "mfont", "c01"];
 
 const FNV_OFF: u64 = 0xcbf29ce484222325;
 const FNV_PRIME: u64 = 0x100000001b3;
@@ -127,6 +133,12 @@ fn feats_of(s: &str) -> Option<Vec<Feature>> {
 }
 
 fn load_font(st: &mut State, spec: &str) -> Option<Face<'static>> {
+    // `#<id>`: a font registered in this process with `font <id> <hex>` / `fontfile <id> <path>`
+    if let Some(id) = spec.strip_prefix('#') {
+        let data: &'static [u8] = st.fonts.get(id)?;
+        let idx = *st.font_index.get(id).unwrap_or(&0);
+        return Face::from_slice(data, idx);
+    }
     let (path, idx) = match spec.rsplit_once('@') {
         Some((p, i)) => (p, i.parse::<u32>().ok()?),
         None => (spec, 0),
@@ -362,6 +374,76 @@ fn lc(toks: &[&str], st: &mut State) -> Option<String> {
         states.push(s + &extra);
     }
     Some(format!("ok {}", states.join(" | ")))
+}
+
+fn lcclear(toks: &[&str]) -> Option<String> {
+    let get = |k: &str| -> Option<&str> {
+        toks[1..].iter().find_map(|t| t.split_once('=').filter(|(a, _)| *a == k).map(|(_, v)| v))
+    };
+    let num = |k: &str| -> Option<u64> { get(k)?.parse().ok() };
+    let opt = |k: &str| -> Option<Option<u32>> {
+        match get(k)? {
+            "-" => Some(None),
+            v => Some(Some(v.parse().ok()?)),
+        }
+    };
+    let hexs = |k: &str| -> Option<Vec<u32>> {
+        match get(k)? {
+            "-" => Some(vec![]),
+            v => v.split(',').map(|x| u32::from_str_radix(x, 16).ok()).collect(),
+        }
+    };
+    let n = num("n")? as usize;
+    let mut info: Vec<vb::RawInfo> = vec![];
+    if get("I")? != "-" {
+        for e in get("I")?.split(',') {
+            let (g, c) = e.split_once(':')?;
+            info.push([g.parse().ok()?, 0, c.parse().ok()?, 0, 0]);
+        }
+    }
+    if info.len() != n {
+        return None;
+    }
+    let il = num("il")? as usize;
+    let pl = num("pl")? as usize;
+    if il < n || il > 100_000 || pl > 100_000 {
+        return None;
+    }
+    info.resize(il, [0; 5]);
+    let st = vb::State {
+        info,
+        out: vec![[0; 5]; pl],
+        idx: num("i")? as usize,
+        len: n,
+        out_len: num("o")? as usize,
+        have_output: num("h")? != 0,
+        have_separate_output: num("s")? != 0,
+        have_positions: num("p")? != 0,
+        successful: num("ok")? != 0,
+        cluster_level: num("L")? as u32,
+        flags: num("F")? as u32,
+        scratch_flags: num("sc")? as u32,
+        max_len: num("M")? as usize,
+        max_ops: get("O")?.parse().ok()?,
+        serial: num("se")? as u8,
+    };
+    let language = match get("G")? {
+        "-" => None,
+        v => Some(String::from_utf8(hex_bytes(v.strip_prefix('x')?)?).ok()?),
+    };
+    let l = vb::Life {
+        st,
+        direction: num("D")? as u8,
+        script: opt("S")?,
+        language,
+        context: [hexs("pre")?, hexs("post")?],
+        shaping_failed: num("sf")? != 0,
+        invisible: opt("inv")?,
+        not_found_variation_selector: opt("nf")?,
+    };
+    let (after, raw) = vb::clear_probe(&l);
+    let cx = |side: usize| raw[side].iter().map(|c| format!("{:x}", c)).collect::<Vec<_>>().join(",");
+    Some(format!("{} cx={}/{}", fmt_life(&after, 'U', false), cx(0), cx(1)))
 }
 
 fn lcprop(toks: &[&str]) -> Option<String> {
@@ -698,6 +780,7 @@ fn c01(toks: &[&str], st: &mut State) -> Option<String> {
 pub fn handle(toks: &[&str], st: &mut State) -> Option<String> {
     match toks[0] {
         "lc" => lc(toks, st),
+        "lcclear" => lcclear(toks),
         "lcprop" => lcprop(toks),
         "lcrand" => {
             // lcrand <fontpath[@index]> <n> -> initial random_state and the first n random numbers of a fresh
